@@ -195,6 +195,12 @@ def run(ctx: Ctx):
     for need in ((True, None), (False, True), (False, False)):
         ctx.check(need in covered, "R06.a", m.func.key(f"case::{need}"), f"case DIFF_ZERO={need[0]}, NEED_GUARD={need[1]} present", f"{m.func.name}: no path for DIFF_ZERO={need[0]}, NEED_GUARD={need[1]}", m.func.where())
 
+    # the guard is built with sympytools.Conditional(abs(LIN) > delta, RL, Euler): what that helper returns - also for a
+    # condition sympy has already decided (delta = oo, a constant linearisation) - is part of the formula
+    from .c01 import conditional_builder
+
+    conditional_builder(ctx, "R06.a")
+
     ctx.rule("R06.b", "the guard is elided only for a**-1 and for products of non-zero constants and accepted factors", floor=6)
     check_elision(ctx)
 
@@ -217,6 +223,17 @@ def run(ctx: Ctx):
         gvals_ = get_code_calls(ctx, short_)
         if gvals_:
             check_value_forwarding(ctx, "R06.c", mainf_, gvals_, gcf_, None, skip=set(gcf_.params) - {"delta", "scheme"})
+    # ... and every command that accepts --delta hands it to the main it dispatches to (each branch of `convert`)
+    from .c18 import dispatched_calls
+
+    for _cname, (cmd_, calls_, _log, _err) in dispatched_calls(ctx).items():
+        by_node_: dict[int, list] = {}
+        for val_, mm_, node_ in calls_ or []:
+            if "delta" in mm_.params:
+                by_node_.setdefault(id(node_), []).append((val_, mm_))
+        for group_ in by_node_.values():
+            mm_ = group_[0][1]
+            check_value_forwarding(ctx, "R06.c", cmd_, [v for v, _m in group_], mm_, None, skip=set(mm_.params) - {"delta", "scheme"})
     from .c12 import check_generator_purity
 
     # delta arrives as a keyword of CodeGenerator.scheme: a result remembered from an earlier call would carry the
